@@ -212,10 +212,21 @@ def main():
         names, checked, problems = audit(prop, files) if ok else (sum((theorem_names(os.path.join(LEAN, f)) for f in files), []), 0, [])
         ctx = Ctx(prop, tier if ok else "thorough", seed)   # a broken obligation triggers the deep search
         ctx.requested_tier = tier
-        if a.replay:
-            mod.replay(ctx, json.load(open(a.replay)))
-        else:
-            mod.correspondence(ctx)
+        try:
+            if a.replay:
+                mod.replay(ctx, json.load(open(a.replay)))
+            else:
+                mod.correspondence(ctx)
+        except Exception as e:  # noqa: BLE001
+            # an exception that escapes from the implementation (a frame inside /repo) is a finding about the
+            # implementation, not an infrastructure problem
+            tb = traceback.extract_tb(e.__traceback__)
+            inside = [f for f in tb if os.path.abspath(f.filename).startswith(os.path.abspath(REPO) + os.sep)]
+            if not inside:
+                raise
+            where = f"{os.path.relpath(inside[-1].filename, REPO)}:{inside[-1].name}"
+            ctx.disagree(f"{prop}:uncaught:{type(e).__name__}:{where}", "".join(traceback.format_exception(e))[-1500:],
+                         "no exception", f"{type(e).__name__}: {e}")
     except subprocess.TimeoutExpired as e:
         print(f"INFRA timeout: {e}")
         sys.exit(2)
